@@ -17,6 +17,7 @@ import (
 	"github.com/alephium/wormhole-fork/node/pkg/vaa"
 	"github.com/alephium/wormhole-fork/node/verifh/cm"
 	"github.com/alephium/wormhole-fork/node/verifh/ev"
+	"github.com/alephium/wormhole-fork/node/verifh/vaacoop"
 	"github.com/alephium/wormhole-fork/node/verifh/proch"
 	"github.com/alephium/wormhole-fork/node/verifh/mc"
 	"github.com/ethereum/go-ethereum/crypto"
@@ -290,6 +291,8 @@ func main() {
 		r.Sample(cases[i])
 	}
 	signedByNode()
+	// concurrent callers of the serializer / digest under every schedule with <= 2 (thorough 3) preemptions
+	r.Add("traces_validated_against_impl", vaacoop.Explore(r, r.Pick(2, 3), r.Thorough()))
 	r.Set("evaluations", int(evals))
 	r.Set("distinct_nontrivial", len(cases)-1)
 	r.Set("distinct_bodies", len(bodies))
